@@ -73,7 +73,34 @@ def gen_program(rng):
                 break
         else:
             continue
-        if rng.random() < 0.35:
+        r = rng.random()
+        if r < 0.15:
+            # x, gx, fx = linear_optimization_step(dir, f): the recorded point is the fresh leaf x; one time in ten
+            # the direction is 0 * leaf (the recorded gradient dictionary is then empty)
+            seen[f].discard(key)
+            seen[f].add(((npnt, 1),))
+            comb = list(zip(keys, coefs))
+            if rng.random() < 0.1:
+                comb = [(keys[0], 0)]
+            ops.append(("linopt", f, comb))
+        elif r < 0.22:
+            # x, gx, fx = exact_linesearch_step(x0, f, dirs): a fresh leaf x (counts as evaluated on f), its oracle
+            # call (gradient leaf, value leaf) and 1 + len(dirs) orthogonality constraints on f
+            dirs = []
+            for _d in range(rng.choice([0, 1, 1, 2])):
+                kk = rng.sample(range(npnt), rng.randint(1, min(2, npnt)))
+                dirs.append([(q, rng.choice([1, -1, 2, 0.5])) for q in kk])
+            seen[f].discard(key)
+            seen[f].add(((npnt, 1),))
+            ops.append(("linesearch", f, list(zip(keys, coefs)), dirs))
+            npnt += 1
+        elif r < 0.34:
+            # x, dx0, fx0 = inexact_gradient_step(p, f, gamma, eps, notion): an oracle call at p, a fresh leaf dx0 and
+            # an accuracy constraint on f (two point leaves)
+            ops.append(("inexact", f, list(zip(keys, coefs)), rng.choice(["absolute", "relative"]),
+                        rng.choice([0.5, 1, 0.25, 2.0, 0, 0.125]), rng.choice([0.5, 1, 2.0, 0])))
+            npnt += 1
+        elif r < 0.55:
             # x, gx, fx = proximal_step(p, f, gamma): the recorded point p - gamma * gx counts as evaluated on f
             gamma = rng.choice([0.5, 1, 1.0, 2, 0.25, 4.0, 1.5, 0.125, 0, -1])
             seen[f].discard(key)
@@ -138,15 +165,28 @@ def impl_program(nf, ops, rng_classes):
             funcs[op[1]].stationary_point()
         else:
             f, comb = op[1], op[2]
-            p = None
-            for k, c in comb:
-                term = leaf(k) if c == 1 else c * leaf(k)
-                p = term if p is None else p + term
-            if len(comb) == 1 and comb[0][1] == 1:
-                p = leaf(comb[0][0])
+
+            def build(comb):
+                p = None
+                for k, c in comb:
+                    term = leaf(k) if c == 1 else c * leaf(k)
+                    p = term if p is None else p + term
+                if len(comb) == 1 and comb[0][1] == 1:
+                    p = leaf(comb[0][0])
+                return p
+            p = build(comb)
             if op[0] == "prox":
                 from PEPit.primitive_steps import proximal_step
                 proximal_step(p, funcs[f], op[3])
+            elif op[0] == "linopt":
+                from PEPit.primitive_steps import linear_optimization_step
+                linear_optimization_step(p, funcs[f])
+            elif op[0] == "linesearch":
+                from PEPit.primitive_steps import exact_linesearch_step
+                exact_linesearch_step(p, funcs[f], [build(d) for d in op[3]])
+            elif op[0] == "inexact":
+                from PEPit.primitive_steps import inexact_gradient_step
+                inexact_gradient_step(p, funcs[f], gamma=op[5], epsilon=op[4], notion=op[3])
             else:
                 funcs[f].oracle(p)
     pid = T.IdMap()
@@ -162,7 +202,8 @@ def impl_program(nf, ops, rng_classes):
     # third entry: the model's well-formedness check of the program (evaluated points only mention existing leaves,
     # which holds by construction; proximal steps have a positive step size)
     wf = 0 if any(op[0] == "prox" and not op[3] > 0 for op in ops) else 1
-    return [Point.counter, Expression.counter, wf, out]
+    cons = [[T.dump_constraint(c, pid, xid) for c in f.list_of_constraints] for f in funcs]
+    return [Point.counter, Expression.counter, wf, out, cons]
 
 
 def model_point(comb):
@@ -179,6 +220,14 @@ def coq_program(nf, ops):
             items.append("MStat %s" % coq_nat(op[1]))
         elif op[0] == "prox":
             items.append("MProx %s %s %s" % (coq_nat(op[1]), model_point(op[2]), coq_q(op[3])))
+        elif op[0] == "linopt":
+            items.append("MLinOpt %s %s" % (coq_nat(op[1]), model_point(op[2])))
+        elif op[0] == "linesearch":
+            items.append("MLineSearch %s %s %s" % (coq_nat(op[1]), model_point(op[2]),
+                                                   coq_list([model_point(d) for d in op[3]])))
+        elif op[0] == "inexact":
+            items.append("MInexact %s %s %s %s" % (coq_nat(op[1]), model_point(op[2]),
+                                                   "true" if op[3] == "relative" else "false", coq_q(op[4])))
         else:
             items.append("MEval %s %s" % (coq_nat(op[1]), model_point(op[2])))
     return "(%s, %s)" % (coq_nat(nf), coq_list(items))
@@ -188,7 +237,7 @@ def stream_recording(tier, seed):
     rng = random.Random(seed * 104729 + 9)
     n = 400 if tier == "quick" else 4000
     cases, progs = [], []
-    hist = {"fresh": 0, "eval": 0, "stat": 0, "prox": 0}
+    hist = {"fresh": 0, "eval": 0, "stat": 0, "prox": 0, "linopt": 0, "inexact": 0, "linesearch": 0}
     n_interleaved = 0
     distinct = set()
     for i in range(n):
@@ -199,7 +248,7 @@ def stream_recording(tier, seed):
         progs.append((nf, ops))
         for op in ops:
             hist[op[0]] += 1
-        if sum(1 for op in ops if op[0] in ("eval", "prox")) >= 2:
+        if sum(1 for op in ops if op[0] in ("eval", "prox", "linopt", "inexact", "linesearch")) >= 2:
             distinct.add(repr((nf, ops)))
         if any(op[0] == "prox" for op in ops) and any(op[0] == "eval" for op in ops):
             n_interleaved += 1
@@ -207,8 +256,12 @@ def stream_recording(tier, seed):
     mism = [dict(program=progs[i], implementation=cases[i][1], model=model_output(IMPORTS, RUN, cases[i][0]))
             for i in bad[:3]]
     return dict(name="oracle-recording", evaluations=len(cases), distinct_nontrivial=len(distinct),
-                rule="seeded random programs of free points, stationary points, oracle calls and proximal steps (the "
-                     "real PEPit.primitive_steps.proximal_step, dyadic step sizes incl. 0 and a negative one) on 1-3 "
+                rule="seeded random programs of free points, stationary points, oracle calls, proximal steps (the "
+                     "real PEPit.primitive_steps.proximal_step, dyadic step sizes incl. 0 and a negative one) and "
+                     "linear-optimization steps (the real linear_optimization_step, incl. the zero direction) and inexact "
+                     "gradient steps (the real inexact_gradient_step, both notions; its accuracy constraint on the "
+                     "function is compared too) and exact line searches (the real exact_linesearch_step with 0-2 directions, "
+                     "its orthogonality constraints compared too) on 1-3 "
                      "leaf functions (6 classes) at dyadic combinations of earlier leaves; one program in five is a "
                      "proximal-gradient / prox-prox run on two functions with oracle calls and proximal steps "
                      "interleaved; non-trivial = at least 2 evaluations / proximal steps; distinct by syntax",
